@@ -285,9 +285,14 @@ def runOps (cfg : Cfg) : List Op → TState → Option TState
     | none => none
     | some st' => runOps cfg ops st'
 
-/-- What the xterm driver's `start` writes (DECSLRM enable and probes, the colour probes, `CSI m`, `CSI G CSI K`). -/
+/-- What the xterm driver's `start` writes:
+    `ESC[?69h ESC[?69$p ESC[?25$p ESC[?12$p ESC P $q SP q ESC\\ ESC[38;5;255m ESC[38:2:0:1:2m ESC P $qm ESC\\ ESC[m ESC[G ESC[K`
+    (DECSLRM enable and probes, the two colour probes, `CSI m`, clear line). -/
 def xtermStart : List Byte :=
-  "\x1b[?69h\x1b[?69$p\x1b[?25$p\x1b[?12$p\x1bP$q q\x1b\\\x1b[38;5;255m\x1b[38:2:0:1:2m\x1bP$qm\x1b\\\x1b[m\x1b[G\x1b[K".toUTF8.toList.map (·.toNat)
+  [27, 91, 63, 54, 57, 104, 27, 91, 63, 54, 57, 36, 112, 27, 91, 63, 50, 53, 36, 112, 27, 91, 63, 49,
+   50, 36, 112, 27, 80, 36, 113, 32, 113, 27, 92, 27, 91, 51, 56, 59, 53, 59, 50, 53, 53, 109, 27, 91,
+   51, 56, 58, 50, 58, 48, 58, 49, 58, 50, 109, 27, 80, 36, 113, 109, 27, 92, 27, 91, 109, 27, 91, 71,
+   27, 91, 75]
 
 /-! ### specification: the logical pen and the rendering attributes it asks for -/
 
